@@ -51,8 +51,6 @@ def conds_negotiateContentEncoding : List String := [
   ]
 
 def conds_streamHTTP_SendMsg : List String := [
-   "if fRsp, ok := s.w.(http.Flusher); ok",
-   "defer fRsp.Flush()",
    "range s.method.resp",
    "if err != nil",
    "return err",
@@ -63,6 +61,7 @@ def conds_streamHTTP_SendMsg : List String := [
    "return status.Errorf(codes.Internal, \"%s: error while marshaling: %v\", c.Name(), err)",
    "if _, err := s.writeMsg(c, b, contentType); err != nil",
    "return err",
+   "if fRsp, ok := s.w.(http.Flusher); ok",
    "if stats := s.opts.statsHandler; stats != nil",
    "return nil"
   ]
